@@ -1,0 +1,7 @@
+//go:build verif
+
+package worker
+
+import fpgo "github.com/TeaEntityLab/fpGo/v2"
+
+func verifAt(point string) { fpgo.VerifAt(point) }
